@@ -88,10 +88,19 @@ def ob_structure(K, n):
             return V0, V1, S
         it.models["pyphysim.util.misc:least_right_singular_vectors"] = lrsv
         it.models[misc.least_right_singular_vectors] = lrsv
-        it.models[np.linalg.matrix_rank] = lambda interp, A, *a, **k: min(np.shape(A))
+        rank_calls = []
+
+        def rank_model(interp, A, *a, **k):
+            rank_calls.append((a, k))
+            return min(np.shape(A))
+        it.models[np.linalg.matrix_rank] = rank_model
         o = it.call(bd.BlockDiagonalizer, [K, 1.0, 0.1])
         Ms, Sigma = it.call(it.getattr(o, "_calc_BD_matrix_no_power_scaling"), [H])
         goals = [Goal("two callee invocations per user", len(calls) == 2 * K),
+                 # the callee contract 'generic channels have full rank' is numpy's scale-relative default decision: an absolute
+                 # tolerance would make the precoder depend on the physical scale of the channel
+                 Goal("matrix_rank is asked with its scale-relative default tolerance (no absolute tol argument)",
+                      len(rank_calls) >= 1 and all(not a and not k for a, k in rank_calls)),
                  Goal("precoder shape", np.shape(Ms) == (N, N)), Goal("one singular value per stream", np.shape(Sigma) == (N,))]
         if not all(g.cond for g in goals):
             return goals
@@ -306,7 +315,7 @@ def ob_native_bd():
 
     def gen():
         for i in range(120 if quick() else 1500):
-            yield {"seed": int(r.randint(1 << 30)), "K": int(2 + i % 3), "n": int(1 + (i // 3) % 4), "scale": float(10 ** [0, -6, 3, -3][(i // 12) % 4])}
+            yield {"seed": int(r.randint(1 << 30)), "K": int(2 + i % 3), "n": int(1 + (i // 3) % 4), "scale": float(10 ** [0, -6, 3, -3, -10, 6, -13][(i // 12) % 7])}
 
     def check(case):
         rr = np.random.RandomState(case["seed"])
